@@ -1,19 +1,14 @@
 #!/bin/bash
-# usage: tools/trymutant.sh <patch.diff> [Cxx ...]   -- applies the patch to /repo, runs the given
-# (default: all claimed) quick checks, prints which fire, and restores /repo. Never commits.
+# usage: tools/trymutant.sh <patch.diff>   -- applies the patch to /repo, runs every quick check
+# in one process, prints the violations, and restores /repo. Never commits.
 set -u
-patch=$1; shift
+patch=$1
 cd /verif
-props=("$@")
-if [ ${#props[@]} -eq 0 ]; then props=($(./bin/dgcheck props | awk '$2!=""{print $1}')); fi
 if ! git -C /repo diff --quiet; then echo "/repo has local changes; refusing"; exit 3; fi
 if ! git -C /repo apply "$patch"; then echo "patch does not apply"; exit 3; fi
-fired=""
-for p in "${props[@]}"; do
-  out=$(./bin/dgcheck $p quick 2>&1); rc=$?
-  if [ $rc -eq 1 ]; then fired="$fired $p"; echo "$out" | grep -B1 "^VIOLATION" | grep -v "^--" | grep -v "^VIOLATION" | cut -c1-260 | sed "s/^/  [$p] /"; fi
-  if [ $rc -eq 2 ]; then echo "  [$p] BROKEN: $(echo "$out" | grep BROKEN | head -2)"; fi
-done
+out=$(DGEVIDENCE=/tmp/dgscratch_$$ ./bin/dgcheck all quick 2>&1); rc=$?
 git -C /repo checkout -- .
-git -C /repo clean -fdq -- . >/dev/null 2>&1
-echo "FIRED:${fired:- none}"
+echo "$out" | grep -B1 "^VIOLATION" | grep -v "^--" | sed 's/^dgcheck: //' | cut -c1-240
+echo "$out" | grep "BROKEN" | head -3
+echo "exit=$rc FIRED: $(echo "$out" | grep -o 'VIOLATION property=C[0-9]*' | sort -u | sed 's/VIOLATION property=//' | tr '\n' ' ')"
+rm -rf /tmp/dgscratch_$$
